@@ -107,12 +107,15 @@ func c19Run(k c19Case, withRecover bool) c19Result {
 		opts = append(opts, connect.WithInterceptors(passI{&passes}))
 	}
 	doPanic := func(at int) {
-		if k.Value != "none" && k.Point == at {
+		if k.Value != "none" && k.Value != "none-err" && k.Point == at {
 			panic(c19Value(k.Value))
 		}
 	}
 	h := NewHandler(k.Kind, func(ctx context.Context, s HStream) error {
 		doPanic(0)
+		if k.Value == "none-err" && k.Point == 0 {
+			return connect.NewError(connect.CodeInvalidArgument, errors.New("plain failure, no panic"))
+		}
 		for {
 			if _, err := s.Receive(); err != nil {
 				if !errors.Is(err, io.EOF) {
@@ -125,6 +128,9 @@ func c19Run(k c19Case, withRecover bool) c19Result {
 			return err
 		}
 		doPanic(1)
+		if k.Value == "none-err" && k.Point == 1 {
+			return connect.NewError(connect.CodeInvalidArgument, errors.New("plain failure, no panic"))
+		}
 		if k.Kind.ServerStreams() {
 			if err := s.Send(&BV{Value: []byte{'h', 1}}); err != nil {
 				return err
@@ -167,7 +173,7 @@ func c19Check(c *ev.Collector, k c19Case) {
 	}
 	bad := false
 	switch k.Value {
-	case "none":
+	case "none", "none-err":
 		ref := c19Run(k, false)
 		if obsString(ref.Res) != obsString(got.Res) || len(got.Recovered) != 0 || got.Panicked {
 			bad = true
@@ -229,7 +235,7 @@ func c19Check(c *ev.Collector, k c19Case) {
 }
 
 func c19Cases(thorough bool) []c19Case {
-	values := []string{"nil", "error", "string", "struct", "pointer", "abort", "wrapped-abort", "none"}
+	values := []string{"nil", "error", "string", "struct", "pointer", "abort", "wrapped-abort", "none", "none-err"}
 	var out []c19Case
 	for _, p := range AllProtos {
 		for _, kind := range AllKinds {
@@ -237,6 +243,9 @@ func c19Cases(thorough bool) []c19Case {
 				points := []int{0, 1, 2}
 				if v == "none" {
 					points = []int{0}
+				}
+				if v == "none-err" {
+					points = []int{0, 1}
 				}
 				for _, pt := range points {
 					if !kind.ServerStreams() && pt == 2 {
@@ -262,7 +271,7 @@ func c19Cases(thorough bool) []c19Case {
 func TestC19(t *testing.T) {
 	c := ev.New("C19")
 	defer func() { _ = c.Finish() }()
-	c.SetRule("configuration x program enumeration on real handlers: panic value {nil, error, string, struct, pointer, http.ErrAbortHandler, error wrapping the sentinel, none} x {unary, client, server, bidi} x {connect, grpc, grpcweb} x panic point {before anything, after the first send, after the last send} x WithRecover preceded/followed by 0..2 other interceptors x GODEBUG panicnil {0,1}; oracle: recovery function called exactly once with the recovered value, client receives exactly its error (after the messages already sent), the abort sentinel is re-raised out of ServeHTTP with zero recovery calls, non-panicking calls equal a handler built without WithRecover; non-trivial = a panic is raised")
+	c.SetRule("configuration x program enumeration on real handlers: panic value {nil, error, string, struct, pointer, http.ErrAbortHandler, error wrapping the sentinel, none, none but the handler returns an error} x {unary, client, server, bidi} x {connect, grpc, grpcweb} x panic point {before anything, after the first send, after the last send} x WithRecover preceded/followed by 0..2 other interceptors x GODEBUG panicnil {0,1}; oracle: recovery function called exactly once with the recovered value, client receives exactly its error (after the messages already sent), the abort sentinel is re-raised out of ServeHTTP with zero recovery calls, non-panicking calls equal a handler built without WithRecover; non-trivial = a panic is raised")
 	c.Assume("memhttp reports the value that escapes ServeHTTP like net/http's server would see it")
 	if ev.ReplayFile() != "" {
 		var k c19Case
@@ -280,7 +289,7 @@ func TestC19(t *testing.T) {
 		if c.Expired() {
 			break
 		}
-		c.Case(k.key(), k.Value != "none")
+		c.Case(k.key(), k.Value != "none" && k.Value != "none-err")
 		Bubble(t, func() { c19Check(c, k) })
 		if i%211 == 0 {
 			c.Sample(k)
